@@ -84,3 +84,13 @@ func init() {
 		return &obsCache{inner: inner, w: w, shape: map[interface{}]string{}}
 	}
 }
+
+// Remove passes an eviction through (kv evicts the nodes a vacuum deletes).
+func (c *obsCache) Remove(key interface{}) {
+	c.mu.Lock()
+	delete(c.shape, key)
+	c.mu.Unlock()
+	if r, ok := c.inner.(interface{ Remove(key interface{}) }); ok {
+		r.Remove(key)
+	}
+}
